@@ -43,7 +43,7 @@ class CallMixin:
         if isinstance(node.value, ast.Name) and node.value.id not in st.env:
             base = self.global_name(node.value.id, fr, node)
             if base.pt == "pyfunc" and base.py[0] == "name":
-                return SV(None, "pyfunc", py=("name", f"{node.value.id}.{node.attr}"))
+                return self.get_attr(base, node.attr, st, fr, node)
         obj = self.ev(node.value, st, fr)
         return self.get_attr(obj, node.attr, st, fr, node)
 
@@ -51,6 +51,9 @@ class CallMixin:
         v = self.voc
         if obj.pt == "pyfunc":
             if obj.py[0] == "name":
+                if attr in ("__module__", "__name__", "_name"):
+                    # dunder of an external object (typing.Optional._name, Literal.__module__): an opaque string constant
+                    return SV(z3.Const(f"G_{obj.py[1]}_{attr}".replace(".", "_"), z3.StringSort()), "str")
                 return SV(None, "pyfunc", py=("name", f"{obj.py[1]}.{attr}"))
             if obj.py[0] == "super":
                 return SV(None, "pyfunc", py=("supermethod", obj.py[1], attr))
@@ -64,6 +67,9 @@ class CallMixin:
         if attr == "__class__":
             return SV(v.clsobj(v.ty(self.box(obj))), "class")
         if cls is not None:
+            for c_ in (self.repo.classes[cls].mro if cls in self.repo.classes else []):
+                if f"{c_}.{attr}" in self.repo.classes:
+                    return self.class_value(f"{c_}.{attr}")
             # property?
             m = self.repo.find_method(cls, attr)
             if m is not None:
@@ -75,7 +81,7 @@ class CallMixin:
                 return self.class_const_value(obj, cls, attr, st, fr, node)
             return self.read_attr(obj, attr, st, fr)
         if obj.pt == "any":
-            if attr in ("__name__", "__module__"):
+            if attr in ("__name__", "__module__", "__mro__"):
                 return self.class_attr(SV(obj.t, "class"), attr, st, fr, node)
             return self.read_attr(obj, attr, st, fr)
         if obj.pt == "none":
@@ -144,6 +150,8 @@ class CallMixin:
         if attr == "__module__":
             f = v.fn("cls_module", v.Cls, z3.StringSort())
             return SV(f(v.cls_of(clsv.t)), "str")
+        if attr == "__mro__":
+            return SV(self.mro_term(v.cls_of(clsv.t)), "tuple")
         if name is not None:
             key = name.replace("__", ".")
             if key in self.repo.classes:
@@ -312,7 +320,15 @@ class CallMixin:
         body_facts = st.facts[n_f + 1:]
         del st.facts[n_f:]
         st.env = saved_env
-        R = self.fresh("comp")
+        canon = z3.Const("canon_e", v.Val)
+        canon_j = z3.Int("canon_j")
+        ckey = (seq.t.get_id(), z3.substitute(self.box(val), (e, canon), (j0, canon_j)).get_id(),
+                z3.substitute(cond, (e, canon), (j0, canon_j)).get_id())
+        cache = self.__dict__.setdefault("_comp_cache", {})
+        R = cache.get(ckey)
+        if R is None:
+            R = self.fresh("comp")
+            cache[ckey] = R
         j = z3.Int("j")
         sub = lambda f: z3.substitute(f, (e, v.sat(seq.t, j)), (j0, j))
         st.facts.append(v.ty(R) == v.cls["list"])
